@@ -11,12 +11,14 @@ import (
 	"github.com/resgateio/resgate/server/codec"
 	"github.com/resgateio/resgate/server/rescache"
 	"github.com/resgateio/resgate/server/reserr"
+	"github.com/resgateio/resgate/server/rpc"
 )
 
 var _ http.Header
 var _ = codec.IsValidRID
 var _ = rescache.NewThrottle
 var _ = reserr.ErrAccessDenied
+var _ rpc.Resources
 
 // --- status mapping (C17) ------------------------------------------------------
 
@@ -636,13 +638,141 @@ var _ = reserr.ErrAccessDenied
 //@   resolves[C07] cb exactly-once
 //@   safety[C15]
 
-// Resource data is assembled by the (recursive) populate routines, which are not under contract.
+// --- resource sets (C02) ---
+
+// Every reference entry of every subscription points at a subscription of the same connection
+// (graph invariant, assumed: references are created through the connection's Subscribe).
+//@ define predRefsOK() bool = (forall x *Subscription, a string :: has(x.refs, a) ==> x.refs[a] != nil && x.refs[a].sub != nil && x.refs[a].sub.c == x.c) &&
+//@     (forall x *Subscription :: x.refs == nil || allocated(x.refs))
+// A reference table belongs to one subscription (ownership, assumed).
+//@ define predOwnRefs(s *Subscription) bool = forall y *Subscription :: y != s && s.refs != nil ==> y.refs != s.refs
+//@ immutable reference.sub
+
+// x is covered by the resource set r: the client already has it (sent), or it is part of r as
+// data (marked to-send) or as an error placeholder.
+//@ define predCovered(x *Subscription, r *rpc.Resources) bool = x.state == stateSent ||
+//@     (x.state == stateToSend && (has(r.Models, x.rid) || has(r.Collections, x.rid))) || has(r.Errors, x.rid)
+
+// Every reference of x is covered by r.
+//@ define predClosed(x *Subscription, r *rpc.Resources) bool = forall a string :: has(x.refs, a) ==> predCovered(x.refs[a].sub, r)
+
+// The to-send mark is only carried by resources of the set under construction.
+//@ define predMarkedIn(c ConnSubscriber, r *rpc.Resources) bool = forall x *Subscription :: x.c == c && x.state == stateToSend ==> has(r.Models, x.rid) || has(r.Collections, x.rid)
+
+// Nothing that r already carries, and nothing the client already has, is lost.
+//@ define predSetGrows(r *rpc.Resources) bool = (forall k string :: old(has(r.Models, k)) ==> has(r.Models, k)) &&
+//@     (forall k string :: old(has(r.Collections, k)) ==> has(r.Collections, k)) && (forall k string :: old(has(r.Errors, k)) ==> has(r.Errors, k)) &&
+//@     (forall x *Subscription :: (old(x.state) == stateSent || old(x.state) == stateToSend ==> x.state == old(x.state)) &&
+//@         (x.state != old(x.state) ==> x.state == stateToSend) && x.indirectsent >= old(x.indirectsent))
+
+// populateResources: afterwards the subscription is covered by the resource set, and every
+// resource newly marked to-send has all of its references covered as well (so the set handed to
+// the client leaves no dangling non-soft reference); nothing already in the set or at the client
+// is lost. Cyclic graphs are cut by the to-send mark.
+//@ func (*Subscription).populateResources
+//@   requires s != nil && r != nil && predMarkedIn(s.c, r)
+//@   assumes predRefsOK() && (forall x *Subscription :: (x.err != nil ==> reserr.predErrOK(x.err)) && x.indirectsent >= 0)
+//@   assumes forall x *Subscription :: x.err == nil && x.state != stateDisposed ==> x.typ == rescache.TypeCollection || x.typ == rescache.TypeModel
+//@   ensures[C02] predCovered(s, r) && predMarkedIn(s.c, r)
+//@   ensures[C02] forall x *Subscription :: x.state == stateToSend && old(x.state) != stateToSend ==> predClosed(x, r)
+//@   ensures[C02] predSetGrows(r)
+//@   ensures[C02] indirect ==> s.indirectsent > old(s.indirectsent)
+//@   assigns Subscription.state, Subscription.indirectsent, r.Models, r.Collections, r.Errors, elemsof(map[string]interface{}), elemsof(map[string]*reserr.Error), alloc()
+//@   safety[C15]
+//@   loop 1 invariant s.state == stateToSend && old(s.state) != stateToSend && old(s.state) != stateSent && predRefsOK()
+//@   loop 1 invariant predSetGrows(r)
+//@   loop 1 invariant predCovered(s, r) && predMarkedIn(s.c, r)
+//@   loop 1 invariant forall a string :: visited1[a] && has(s.refs, a) ==> predCovered(s.refs[a].sub, r)
+//@   loop 1 invariant forall x *Subscription :: x != s && x.state == stateToSend && old(x.state) != stateToSend ==> predClosed(x, r)
+//@   loop 1 invariant indirect ==> s.indirectsent > old(s.indirectsent)
+
+// The legacy (protocol < 1.2.1) variant differs only in the encoding of the entries.
+//@ func (*Subscription).populateResourcesLegacy
+//@   requires s != nil && r != nil && predMarkedIn(s.c, r)
+//@   assumes predRefsOK() && (forall x *Subscription :: (x.err != nil ==> reserr.predErrOK(x.err)) && x.indirectsent >= 0)
+//@   assumes forall x *Subscription :: x.err == nil && x.state != stateDisposed ==> x.typ == rescache.TypeCollection || x.typ == rescache.TypeModel
+//@   ensures[C02] predCovered(s, r) && predMarkedIn(s.c, r)
+//@   ensures[C02] forall x *Subscription :: x.state == stateToSend && old(x.state) != stateToSend ==> predClosed(x, r)
+//@   ensures[C02] predSetGrows(r)
+//@   ensures[C02] indirect ==> s.indirectsent > old(s.indirectsent)
+//@   assigns Subscription.state, Subscription.indirectsent, r.Models, r.Collections, r.Errors, elemsof(map[string]interface{}), elemsof(map[string]*reserr.Error), alloc()
+//@   safety[C15]
+//@   loop 1 invariant s.state == stateToSend && old(s.state) != stateToSend && old(s.state) != stateSent && predRefsOK()
+//@   loop 1 invariant predSetGrows(r)
+//@   loop 1 invariant predCovered(s, r) && predMarkedIn(s.c, r)
+//@   loop 1 invariant forall a string :: visited1[a] && has(s.refs, a) ==> predCovered(s.refs[a].sub, r)
+//@   loop 1 invariant forall x *Subscription :: x != s && x.state == stateToSend && old(x.state) != stateToSend ==> predClosed(x, r)
+//@   loop 1 invariant indirect ==> s.indirectsent > old(s.indirectsent)
+
+// GetRPCResources builds a new resource set for one message (no resource of the connection
+// carries the to-send mark between messages): the subscription is covered by it and so is every
+// reference of every resource the set newly carries; resources the client already has stay so.
 //@ func (*Subscription).GetRPCResources
-//@   trusted
-//@   requires s != nil
+//@   requires s != nil && s.c != nil && s.c.(*wsConn) != nil
+//@   assumes forall x *Subscription :: x.c == s.c ==> x.state != stateToSend
+//@   assumes predRefsOK() && (forall x *Subscription :: (x.err != nil ==> reserr.predErrOK(x.err)) && x.indirectsent >= 0)
+//@   assumes forall x *Subscription :: x.err == nil && x.state != stateDisposed ==> x.typ == rescache.TypeCollection || x.typ == rescache.TypeModel
+//@   ensures[C02] result != nil && fresh(result) && predCovered(s, result) && predMarkedIn(s.c, result)
+//@   ensures[C02] forall x *Subscription :: x.c == s.c && x.state == stateToSend ==> predClosed(x, result)
+//@   ensures[C02] forall x *Subscription :: (old(x.state) == stateSent ==> x.state == stateSent) && (x.state != old(x.state) ==> x.state == stateToSend) && x.indirectsent >= old(x.indirectsent)
+//@   ensures[C02] indirect ==> s.indirectsent > old(s.indirectsent)
+//@   assigns Subscription.state, Subscription.indirectsent, elemsof(map[string]interface{}), elemsof(map[string]*reserr.Error), alloc()
+//@   safety[C15]
+
+// ReleaseRPCResources: a disposed, failed or already sent subscription is left alone (this cuts
+// cycles); any other is marked sent before its references are released, and its held events are
+// released (hold reason "loading" only) after that. Events processed while releasing may change
+// anything, so nothing is promised about the final state.
 //@ func (*Subscription).ReleaseRPCResources
-//@   trusted
-//@   requires s != nil
+//@   requires s != nil && s.c != nil && predConnOK(s.c.(*wsConn))
+//@   assumes predRefsOK() && predCountsOK()
+//@   ensures[C03] old(s.state) == stateDisposed || old(s.state) == stateSent || old(s.err) != nil ==>
+//@       callcount("unqueueEvents") == old(callcount("unqueueEvents")) && callcount("ReleaseRPCResources") == old(callcount("ReleaseRPCResources")) &&
+//@       (forall x *Subscription :: x.state == old(x.state) && x.queueFlag == old(x.queueFlag))
+//@   ensures[C03] !(old(s.state) == stateDisposed || old(s.state) == stateSent || old(s.err) != nil) ==> callcount("unqueueEvents") == old(callcount("unqueueEvents")) + 1
+//@   assert[C03] s.unqueueEvents#1: arg0 == queueReasonLoading
+//@   safety[C15]
+//@   loop 1 let M = s.refs
+//@   loop 1 assume predConnOK(s.c.(*wsConn)) && (forall a string :: has(M, a) ==> M[a] != nil && M[a].sub != nil && M[a].sub.c == s.c)
+//@   loop 1 invariant callcount("unqueueEvents") == old(callcount("unqueueEvents"))
+//@   loop 1 invariant !(old(s.state) == stateDisposed || old(s.state) == stateSent || old(s.err) != nil)
+
+// --- reference bookkeeping (C02) ---
+
+// addReference: on success the reference table has an entry for the resource id pointing at the
+// returned subscription of the same connection; an existing entry is counted up by one, a new
+// one starts at one after exactly one indirect subscribe; no other entry changes. It fails only
+// on a connection that is being disposed, and then no entry changes.
+//@ func (*Subscription).addReference
+//@   requires s != nil && s.c != nil && predConnOK(s.c.(*wsConn))
+//@   assumes predSubsOK(s.c.(*wsConn)) && predRefsOK() && predOwnRefs(s)
+//@   ensures[C02] result1 == nil ==> result0 != nil && has(s.refs, rid) && s.refs[rid] != nil && s.refs[rid].sub == result0 && result0.c == s.c
+//@   ensures[C02] result1 == nil && old(has(s.refs, rid)) ==> s.refs == old(s.refs) && s.refs[rid] == old(s.refs[rid]) && s.refs[rid].count == old(s.refs[rid].count) + 1
+//@   ensures[C02] result1 == nil && !old(has(s.refs, rid)) ==> s.refs[rid].count == 1 && fresh(s.refs[rid])
+//@   ensures[C02] forall a string :: a != rid ==> has(s.refs, a) == old(has(s.refs, a)) && (has(s.refs, a) ==> s.refs[a] == old(s.refs[a]))
+//@   ensures[C02] (result1 != nil) == (old(s.c.(*wsConn).disposing) && !old(has(s.refs, rid)))
+//@   ensures[C02] result1 != nil ==> !has(s.refs, rid) && reserr.predErrOK(result1)
+//@   ensures predRefsOK() && predOwnRefs(s)
+//@   ensures predCountsOK() && (forall x *Subscription :: x.err != nil ==> reserr.predErrOK(x.err))
+//@   ensures forall r string :: has(s.c.(*wsConn).subs, r) ==> s.c.(*wsConn).subs[r] != nil && s.c.(*wsConn).subs[r].c == s.c
+//@   ensures forall x *Subscription :: x.access != nil ==> (x.access.Error != nil || x.access.AccessResult != nil)
+//@   ensures !s.c.(*wsConn).disposing ==> s.c.(*wsConn).subs != nil
+//@   assigns s.refs, elemsof(map[string]*reference), reference.count, Subscription.indirect, elems(s.c.(*wsConn).subs), pkgstate(rescache), cachecontainers(), alloc()
+//@   safety[C15]
+
+// removeReference: the entry is counted down by one; when it reaches zero the entry is removed
+// and the indirect subscription is given back exactly once.
+//@ func (*Subscription).removeReference
+//@   requires s != nil && s.c != nil && predConnOK(s.c.(*wsConn)) && has(s.refs, rid) && s.refs[rid] != nil && s.refs[rid].sub != nil
+//@   ensures[C02] old(s.refs[rid].count) != 1 ==> has(s.refs, rid) && s.refs[rid] == old(s.refs[rid]) && s.refs[rid].count == old(s.refs[rid].count) - 1 &&
+//@       callcount("removeCount") == old(callcount("removeCount")) && s.refs == old(s.refs) &&
+//@       (forall a string :: a != rid ==> has(s.refs, a) == old(has(s.refs, a)) && s.refs[a] == old(s.refs[a]))
+//@   ensures[C02] old(s.refs[rid].count) == 1 ==> !has(s.refs, rid)
+//@   ensures[C02] old(s.refs[rid].count) == 1 && !old(s.c.(*wsConn).disposing) ==> callcount("removeCount") == old(callcount("removeCount")) + 1
+//@   assert[C02] s.c.Unsubscribe#1: arg0 == old(s.refs[rid].sub) && !arg1 && arg2 == (old(s.state) == stateSent) && arg3 == 1 && arg4
+//@   assigns reference.count, elemsof(map[string]*reference), Subscription.direct, Subscription.state, Subscription.indirectsent, Subscription.indirect, Subscription.readyCallbacks,
+//@       Subscription.eventQueue, Subscription.throttle, Subscription.resourceSub, Subscription.refs, elems(s.c.(*wsConn).subs), pkgstate(rescache), cachecontainers()
+//@   safety[C15]
 
 // a subscription created for a connection keeps pointing at it
 //@ define predSubOf(s *Subscription, c *wsConn) bool = s != nil && s.c == c
@@ -869,10 +999,137 @@ var _ = reserr.ErrAccessDenied
 //@   assert[C06] s.unqueueEvents#1: (!(a.Error == nil && a.Get) && !s.c.(*wsConn).disposing) ==> s.direct <= 0
 //@   safety[C15]
 
-// Event processing itself (reference bookkeeping, resource sets) is not under contract.
+// processEvent: an event that targets another internal version of the resource is discarded
+// without any effect; a matching one bumps the version by one exactly when it is an update and is
+// handed to the handler of the resource's type, once.
 //@ func (*Subscription).processEvent
-//@   trusted
-//@   requires s != nil && event != nil
+//@   requires s != nil && event != nil && s.c != nil && predConnOK(s.c.(*wsConn))
+//@   assumes s.resourceSub != nil && s.resourceSub.e != nil
+//@   ensures[C03] old(s.version) != old(event.Version) ==> s.version == old(s.version) && wsframes == old(wsframes) &&
+//@       callcount("processCollectionEvent") == old(callcount("processCollectionEvent")) && callcount("processModelEvent") == old(callcount("processModelEvent")) &&
+//@       (forall x *Subscription :: x.state == old(x.state) && x.refs == old(x.refs) && x.queueFlag == old(x.queueFlag) && x.direct == old(x.direct))
+//@   ensures[C03] old(s.version) == old(event.Version) ==> callcount("processCollectionEvent") + callcount("processModelEvent") <=
+//@       old(callcount("processCollectionEvent")) + old(callcount("processModelEvent")) + 1
+//@   assert[C03] s.processCollectionEvent#1: arg0 == event && s.version == old(s.version) + ite(old(event.Update), 1, 0) && old(s.version) == old(event.Version)
+//@   assert[C03] s.processModelEvent#1: arg0 == event && s.version == old(s.version) + ite(old(event.Update), 1, 0) && old(s.version) == old(event.Version)
+//@   safety[C15]
+
+// The reference table mirrors the references of the resource as the client knows it (whole-history
+// invariant, assumed): a removed reference value has its entry.
+//@ define predRemoveOK(s *Subscription, event *rescache.ResourceEvent) bool = event.Event == "remove" && event.Value.Type == codec.ValueTypeReference ==>
+//@     has(s.refs, event.Value.RID)
+
+// processCollectionEvent (frames counted for a connection with a socket): a non-reference add,
+// a remove and any custom event write exactly one frame; a custom event changes no state at
+// all. An added reference whose resource the client already has writes one frame and counts one
+// more parent for it; one the client does not have yet writes nothing now: events are held
+// (reason "loading") and the frame is left to the ready callback. A removed reference value
+// loses one count of its entry. A delete marks the subscription deleted before the delete frame
+// and ends every direct subscription.
+//@ func (*Subscription).processCollectionEvent
+//@   requires s != nil && event != nil && s.c != nil && predConnOK(s.c.(*wsConn))
+//@   assumes predSubsOK(s.c.(*wsConn)) && predRefsOK() && predRemoveOK(s, event)
+//@   assumes event.Event == "add" ==> event.Value.Type >= codec.ValueTypePrimitive && event.Value.Type <= codec.ValueTypeData
+//@   ensures[C03] old(s.c.(*wsConn).ws) != nil && event.Event == "add" && old(event.Value.Type) != codec.ValueTypeReference ==> wsframes == old(wsframes) + 1
+//@   ensures[C03] old(s.c.(*wsConn).ws) != nil && event.Event == "remove" ==> wsframes == old(wsframes) + 1
+//@   ensures[C03] old(s.c.(*wsConn).ws) != nil && event.Event != "add" && event.Event != "remove" && event.Event != "delete" ==> wsframes == old(wsframes) + 1 &&
+//@       (forall x *Subscription :: x.state == old(x.state) && x.refs == old(x.refs) && x.queueFlag == old(x.queueFlag) && x.direct == old(x.direct) && x.indirectsent == old(x.indirectsent))
+//@   ensures[C02,C03] event.Event == "add" && old(event.Value.Type) == codec.ValueTypeReference && (!old(s.c.(*wsConn).disposing) || old(has(s.refs, event.Value.RID))) ==>
+//@       (wsframes == old(wsframes) + ite(old(s.c.(*wsConn).ws) != nil, 1, 0) && callcount("OnReady") == old(callcount("OnReady")) &&
+//@           has(s.refs, old(event.Value.RID)) && s.refs[old(event.Value.RID)] != nil && s.refs[old(event.Value.RID)].sub != nil &&
+//@           s.refs[old(event.Value.RID)].sub.state == stateSent) ||
+//@       (callcount("OnReady") == old(callcount("OnReady")) + 1)
+//@   ensures[C03] event.Event == "add" && old(event.Value.Type) == codec.ValueTypeReference && old(s.c.(*wsConn).disposing) && !old(has(s.refs, event.Value.RID)) ==> wsframes == old(wsframes)
+//@   assert[C02,C03] sub.OnReady#1: !sub.IsSent() && s.queueFlag & queueReasonLoading != 0 && sub.c == s.c && has(s.refs, old(event.Value.RID)) &&
+//@       s.refs[old(event.Value.RID)].sub == sub && wsframes == old(wsframes)
+//@   assert[C02] s.removeReference#1: arg0 == old(event.Value.RID) && old(event.Value.Type) == codec.ValueTypeReference
+//@   assert[C03] s.unsubscribeDirect#1: s.state == stateDeleted && arg0 == reserr.ErrDeleted && wsframes == old(wsframes) + ite(old(s.c.(*wsConn).ws) != nil, 1, 0)
+//@   safety[C15]
+
+// The ready callback of an added reference: nothing at all for a disposed subscription; otherwise
+// the event frame is written with a resource set that covers the added resource and every
+// reference of every resource it newly carries, then the resources are released, then the held
+// events - in this order.
+//@ closure (*Subscription).processCollectionEvent#1
+//@   requires s != nil && event != nil && s.c != nil && predConnOK(s.c.(*wsConn)) && sub != nil && sub.c == s.c
+//@   ensures[C03] old(s.state) == stateDisposed ==> wsframes == old(wsframes) && callcount("GetRPCResources") == old(callcount("GetRPCResources")) &&
+//@       callcount("ReleaseRPCResources") == old(callcount("ReleaseRPCResources")) && callcount("unqueueEvents") == old(callcount("unqueueEvents"))
+//@   ensures[C03] old(s.state) != stateDisposed ==> callcount("GetRPCResources") == old(callcount("GetRPCResources")) + 1 &&
+//@       callcount("ReleaseRPCResources") == old(callcount("ReleaseRPCResources")) + 1 && callcount("unqueueEvents") == old(callcount("unqueueEvents")) + 1
+//@   assert[C02] s.c.Send#2: predCovered(sub, r) && (forall x *Subscription :: x.c == s.c && x.state == stateToSend ==> predClosed(x, r))
+//@   assert[C03] sub.ReleaseRPCResources#1: wsframes == old(wsframes) + ite(old(s.c.(*wsConn).ws) != nil, 1, 0)
+//@   assert[C03] s.unqueueEvents#1: arg0 == queueReasonLoading && callcount("ReleaseRPCResources") == old(callcount("ReleaseRPCResources")) + 1
+//@   safety[C15]
+
+// processModelEvent, change: a reference is taken for every changed-to reference value before
+// any changed-from reference is given back (a resource moving between properties is never
+// dropped in between). If the client already has all of them, exactly one frame is written and
+// each counts one more parent; otherwise nothing is written now: events are held (reason
+// "loading") before the first ready callback is registered, one per taken reference. Failing to
+// take a reference (connection being disposed) writes nothing. Delete and custom events as for
+// collections.
+//@ func (*Subscription).processModelEvent
+//@   requires s != nil && event != nil && s.c != nil && predConnOK(s.c.(*wsConn))
+//@   assumes predSubsOK(s.c.(*wsConn)) && predRefsOK()
+//@   ensures[C03] old(s.c.(*wsConn).ws) != nil && event.Event != "change" && event.Event != "delete" ==> wsframes == old(wsframes) + 1 &&
+//@       (forall x *Subscription :: x.state == old(x.state) && x.refs == old(x.refs) && x.queueFlag == old(x.queueFlag) && x.direct == old(x.direct) && x.indirectsent == old(x.indirectsent))
+//@   ensures[C02,C03] event.Event == "change" ==> callcount("OnReady") > old(callcount("OnReady")) ||
+//@       (callcount("OnReady") == old(callcount("OnReady")) && (wsframes == old(wsframes) + ite(old(s.c.(*wsConn).ws) != nil, 1, 0) || (old(s.c.(*wsConn).disposing) && wsframes == old(wsframes))))
+//@   assert[C02] s.addReference#1: callcount("removeReference") == old(callcount("removeReference")) && wsframes == old(wsframes)
+//@   assert[C02] s.removeReference#1: wsframes == old(wsframes) && callcount("OnReady") == old(callcount("OnReady"))
+//@   assert[C02,C03] sub.OnReady#1: rangeidx4 == 0 ==> s.queueFlag & queueReasonLoading != 0 && wsframes == old(wsframes)
+//@   assert[C02] sub.OnReady#1: rangeidx4 == 0 ==> (forall j int :: 0 <= j && j < len(subs) ==> subs[j] != nil && subs[j].c == s.c)
+//@   assert[C03] s.unsubscribeDirect#1: s.state == stateDeleted && arg0 == reserr.ErrDeleted && wsframes == old(wsframes) + ite(old(s.c.(*wsConn).ws) != nil, 1, 0)
+//@   safety[C15]
+//@   loop 1 invariant predSubsOK(s.c.(*wsConn)) && predRefsOK() && wsframes == old(wsframes) && callcount("addReference") <= old(callcount("addReference")) + iters1
+//@   loop 1 invariant callcount("removeReference") == old(callcount("removeReference")) && callcount("OnReady") == old(callcount("OnReady"))
+//@   loop 1 invariant s.c.(*wsConn).ws == old(s.c.(*wsConn).ws) && s.c.(*wsConn).disposing == old(s.c.(*wsConn).disposing)
+//@   loop 1 invariant forall j int :: 0 <= j && j < len(subs) ==> subs[j] != nil && subs[j].c == s.c
+//@   loop 1 invariant hasUnsent ==> len(subs) > 0
+//@   loop 2 assume has(old, k) && old[k].Type == codec.ValueTypeReference ==> has(s.refs, old[k].RID) && s.refs[old[k].RID] != nil && s.refs[old[k].RID].sub != nil
+//@   loop 2 invariant wsframes == old(wsframes) && callcount("OnReady") == old(callcount("OnReady")) && (hasUnsent ==> len(subs) > 0)
+//@   loop 2 invariant s.c.(*wsConn).ws == old(s.c.(*wsConn).ws) && s.c.(*wsConn).disposing == old(s.c.(*wsConn).disposing)
+//@   loop 2 invariant forall j int :: 0 <= j && j < len(subs) ==> subs[j] != nil && subs[j].c == s.c
+//@   loop 3 invariant wsframes == old(wsframes) && callcount("OnReady") == old(callcount("OnReady")) && s.c.(*wsConn).ws == old(s.c.(*wsConn).ws)
+//@   loop 3 invariant forall j int :: 0 <= j && j < len(subs) ==> subs[j] != nil && subs[j].c == s.c
+//@   loop 4 assume forall j int :: 0 <= j && j < len(subs) ==> subs[j] != nil && subs[j].c == s.c
+//@   loop 4 invariant callcount("OnReady") == old(callcount("OnReady")) + rangeidx4 && len(subs) > 0
+//@   loop 4 invariant rangeidx4 == 0 ==> s.queueFlag & queueReasonLoading != 0 && wsframes == old(wsframes)
+//@   loop 4 invariant rangeidx4 == 0 ==> (forall j int :: 0 <= j && j < len(subs) ==> subs[j] != nil && subs[j].c == s.c)
+
+// The ready callback of a change event with new references: nothing at all for a disposed
+// subscription; all but the last of the callbacks only count down. The last one builds one
+// resource set (no resource of the connection carries the to-send mark between messages) that
+// covers every taken reference and every reference of every resource it newly carries, writes
+// the change frame with it, then releases the resources, then the held events.
+//@ closure (*Subscription).processModelEvent#1
+//@   requires s != nil && event != nil && s.c != nil && predConnOK(s.c.(*wsConn))
+//@   assumes forall j int :: 0 <= j && j < len(subs) ==> subs[j] != nil && subs[j].c == s.c
+//@   assumes forall x *Subscription :: x.c == s.c ==> x.state != stateToSend
+//@   ensures[C03] old(s.state) == stateDisposed ==> count == old(count) && wsframes == old(wsframes) &&
+//@       callcount("ReleaseRPCResources") == old(callcount("ReleaseRPCResources")) && callcount("unqueueEvents") == old(callcount("unqueueEvents"))
+//@   ensures[C03] old(s.state) != stateDisposed && old(count) > 1 ==> count == old(count) - 1 && wsframes == old(wsframes) &&
+//@       callcount("ReleaseRPCResources") == old(callcount("ReleaseRPCResources")) && callcount("unqueueEvents") == old(callcount("unqueueEvents"))
+//@   ensures[C03] old(s.state) != stateDisposed && old(count) <= 1 ==> callcount("unqueueEvents") == old(callcount("unqueueEvents")) + 1 &&
+//@       callcount("ReleaseRPCResources") == old(callcount("ReleaseRPCResources")) + len(subs)
+//@   assert[C02] s.c.Send#3: (forall j int :: 0 <= j && j < len(subs) ==> predCovered(subs[j], r)) && (forall x *Subscription :: x.c == s.c && x.state == stateToSend ==> predClosed(x, r))
+//@   assert[C02] s.c.Send#4: (forall j int :: 0 <= j && j < len(subs) ==> predCovered(subs[j], r)) && (forall x *Subscription :: x.c == s.c && x.state == stateToSend ==> predClosed(x, r))
+//@   assert[C03] sub.ReleaseRPCResources#1: rangeidx3 == 0 ==> wsframes == old(wsframes) + ite(old(s.c.(*wsConn).ws) != nil, 1, 0)
+//@   assert[C03] s.unqueueEvents#1: arg0 == queueReasonLoading && callcount("ReleaseRPCResources") == old(callcount("ReleaseRPCResources")) + len(subs)
+//@   safety[C15]
+//@   loop 1 invariant r != nil && predMarkedIn(s.c, r) && wsframes == old(wsframes) && callcount("ReleaseRPCResources") == old(callcount("ReleaseRPCResources"))
+//@   loop 1 invariant forall j int :: 0 <= j && j < len(subs) ==> subs[j] != nil && subs[j].c == s.c
+//@   loop 1 invariant forall j int :: 0 <= j && j < rangeidx1 ==> predCovered(subs[j], r)
+//@   loop 1 invariant forall x *Subscription :: x.c == s.c && x.state == stateToSend ==> predClosed(x, r)
+//@   loop 1 invariant s.c.(*wsConn).ws == old(s.c.(*wsConn).ws) && s.c.(*wsConn).protocolVer == old(s.c.(*wsConn).protocolVer)
+//@   loop 2 invariant r != nil && predMarkedIn(s.c, r) && wsframes == old(wsframes) && callcount("ReleaseRPCResources") == old(callcount("ReleaseRPCResources"))
+//@   loop 2 invariant forall j int :: 0 <= j && j < len(subs) ==> subs[j] != nil && subs[j].c == s.c
+//@   loop 2 invariant forall j int :: 0 <= j && j < rangeidx2 ==> predCovered(subs[j], r)
+//@   loop 2 invariant forall x *Subscription :: x.c == s.c && x.state == stateToSend ==> predClosed(x, r)
+//@   loop 2 invariant s.c.(*wsConn).ws == old(s.c.(*wsConn).ws) && s.c.(*wsConn).protocolVer == old(s.c.(*wsConn).protocolVer)
+//@   loop 3 assume forall j int :: 0 <= j && j < len(subs) ==> subs[j] != nil && subs[j].c == s.c
+//@   loop 3 invariant callcount("ReleaseRPCResources") == old(callcount("ReleaseRPCResources")) + rangeidx3 && callcount("unqueueEvents") == old(callcount("unqueueEvents"))
+//@   loop 3 invariant rangeidx3 == 0 ==> wsframes == old(wsframes) + ite(old(s.c.(*wsConn).ws) != nil, 1, 0)
 
 // unqueueEvents: while another hold reason remains nothing is released; a deferred re-access is
 // handled before any held event; a held event is processed only while no hold reason is set.
@@ -885,7 +1142,7 @@ var _ = reserr.ErrAccessDenied
 //@   assert[C03,C06] s.processEvent#1: s.queueFlag == 0
 //@   safety[C15]
 //@   loop 1 invariant s.queueFlag == 0
-//@   loop 1 invariant forall k int :: 0 <= k && k < len(eq) ==> eq[k] != nil
+//@   loop 1 assume forall k int :: 0 <= k && k < len(eq) ==> eq[k] != nil
 
 // Event (run by the connection worker): reaccess is handled even before the resource is loaded;
 // other events are dropped until the resource is loaded, appended at the tail of the hold queue
